@@ -33,12 +33,13 @@ m = {
         'serves_properties': sorted(registry.PROPERTIES),
         'kind_free_text': 'repository-specific static analysis (pure stdlib ast/symtable): repository model, type-lite receiver typing and '
                           'call graph with a frozen dispatch table, statement CFG with dominators / must-pass-through, ownership dataflow, '
-                          'linear normal forms, truth tables of extracted predicates; 28 rules; in-memory seeded variants as positive controls',
+                          'linear normal forms, truth tables of extracted predicates; 57 rules; in-memory seeded variants as positive controls',
     }],
     'checks': checks,
     'notes': 'Exit 0: every obligation discharged (known findings printed as KNOWN-FINDING). Exit 1 + VIOLATION line: a rule instance failed on a '
              'construct not listed in known_findings.json. Exit 2 + ANALYSIS-ERROR: the checker could not do its job (anchor vanished, instance '
-             'count below the hand-confirmed minimum, control wrong). Repairs of genuine defects are the 15 unguarded "fix:" commits in /repo '
+             'count below the hand-confirmed minimum, control wrong) and no rule found a violation -- a refusal of one rule never masks what another '
+             'rule finds. Repairs of genuine defects are the 19 unguarded "fix:" commits in /repo '
              '(listed as fixed: entries in known_findings.json). The deciding step reads /repo\'s working tree on every run (VERIF_REPO overrides '
              'the root for the self-test only).',
     'not_applicable': [{'property_id': k, 'reason': v} for k, v in sorted(registry.NOT_APPLICABLE.items())],
